@@ -64,6 +64,7 @@ type J struct {
 	B     bool
 	Items []*J
 	Keys  []string
+	Lit   string // Kind 2: the number literal as written (e.g. "1.5"); N is used when empty
 }
 
 // Stream is an abstract io.WriteCloser / io.ReadSeeker carrying one JSON value tree or text lines.
